@@ -34,7 +34,7 @@ def registry():
                      ensures={'value': 'result == (self._value == other._value)'}, modifies=[], options={'exact': True}))
     reg.add(Contract(S + '_Element.encode', params={}, returns='i2osp(self._value, 16)',
                      ensures={'value': 'result == i2osp(self._value, 16)'}, modifies=[], options={'exact': True}))
-    reg.add(Contract(S + '_Element.__add__', params={'term': EL}, result=EL, bv_width=128,
+    reg.add(Contract(S + '_Element.__add__', params={'term': EL}, result=EL, options={'bitops': 'uf'},
                      ensures={'xor': 'result._value == self._value ^ term._value', 'valid': 'valid(result)',
                               'fresh': 'result is not self and result is not term'},
                      modifies=[]))
@@ -47,7 +47,7 @@ def registry():
                      modifies=[], assumed='NOT PROVED deductively; bounded: shamir.field.inverse'))
     reg.add(Contract(S + '_Element.__pow__', params={'exponent': 'int[1..8]'}, result=EL,
                      ensures={'pow': 'result._value == spec.gf128.power(self._value, exponent)', 'valid': 'valid(result)'},
-                     modifies=[]))
+                     modifies=[], options={'bitops': 'uf'}))
 
     return reg
 
@@ -59,7 +59,7 @@ def split_contract(reg, k, n):
                             ensures={'count': 'len(result) == n',
                                      'indices': 'all(result[i][0] == i + 1 for i in range(n))',
                                      'shares': 'all(result[i][1] == i2osp(spec.shamir.share(%s, i + 1, ssss), 16) for i in range(n))' % coeffs},
-                            modifies=[], raises={}, bv_width=128))
+                            modifies=[], raises={}, options={'bitops': 'uf'}))
 
 
 def combine_contract(reg, k):
@@ -69,7 +69,7 @@ def combine_contract(reg, k):
     return reg.add(Contract(S + 'Shamir.combine', params={'shares': 'list(%s)' % tup, 'ssss': 'bool'},
                             raises={'ValueError': ('iff', 'not spec.shamir.distinct(%s)' % xs)},
                             ensures={'secret': 'result == i2osp(spec.shamir.combine(%s, %s, ssss), 16)' % (xs, vs)},
-                            modifies=[], bv_width=128))
+                            modifies=[], options={'bitops': 'uf'}))
 
 
 def _reg_split(k, n):
